@@ -319,6 +319,9 @@ def evaluate(prop, sc, want_trace=False):
             out.probes['destroy_middle_node'] = 1
         if o['op'] == 'drop':
             out.probes['reference_dropped'] = 1
+    for o in sc['ops']:
+        if o['op'] != 'emit':
+            out.faults[o['op']] = out.faults.get(o['op'], 0) + 1
     out.nontrivial = 'emit_after_edit' in out.probes
     if want_trace:
         import types
